@@ -28,6 +28,17 @@ CliIn(cmd) ==
   IN  IF cmd.chan = "file" THEN base @@ [files |-> [in |-> spec]]
       ELSE IF cmd.chan = "stdin" THEN base @@ [stdin |-> spec]
       ELSE base
+\* An ambient environment: variables a user's shell may well contain, among them the upper-snake-case names of
+\* every long option that is NOT specified to be read from the environment.  Only MNEMONIC, PASSWORD,
+\* ACCOUNT_INDEX and HD_PATH mean anything to the tool (Wallet!EnvOf); everything else must change nothing.
+Ambient == [ALLOW_MISSING_RELAY_PROTECTION |-> "true", SIGNATURE_ONLY |-> "true", MESSAGE_HASH |-> "true",
+            SIGNATURE |-> "0x00", LENGTH |-> "24", LANGUAGE |-> "klingon", VANITY_PREFIX |-> "0xabcdef", VANITY_PASSWORD |-> "x",
+            VANITY_ACCOUNT_INDEX |-> "9", VANITY_HD_PATH |-> "m/1", VANITY_THREADS |-> "3", TRANSACTION |-> "/dev/null",
+            MESSAGE |-> "/dev/null", TYPEDDATA |-> "/dev/null", DATA |-> "/dev/null", BYTES |-> "0x00", INDEX |-> "5", PATH_ |-> "m/5",
+            HOME |-> "/nonexistent", LANG |-> "tr_TR.UTF-8", LC_ALL |-> "C", TERM |-> "dumb", COLUMNS |-> "10", NO_COLOR |-> "1",
+            CLICOLOR_FORCE |-> "1", RUST_BACKTRACE |-> "full", RUST_LOG |-> "trace", CLAP_COMPLETE |-> "bash", HDWALLET_MNEMONIC |-> "x"]
+AItem(fam, cmd) ==
+  LET in0 == CliIn(cmd) IN [i |-> 0, op |-> "cli", fam |-> fam, in |-> [in0 EXCEPT !.env = in0.env @@ Ambient]]
 CItem(fam, cmd) == [i |-> 0, op |-> "cli", fam |-> fam, in |-> CliIn(cmd)]
 \* session step: sid groups the steps, rel is a relation the judge checks against earlier outputs
 SItem(fam, sid, cmd, rel) == [i |-> 0, op |-> "cli", fam |-> fam, sid |-> sid, in |-> CliIn(cmd) @@ [rel |-> rel]]
